@@ -7,6 +7,9 @@ From LokyV Require Lib.WorkerLib Gen.Worker Proofs.WorkerThm.
 From LokyV Require Lib.ExitLib Gen.Exit Proofs.ExitThm.
 From LokyV Require Lib.ResizeLib Gen.Resize Model.Watch Proofs.WatchThm.
 From LokyV Require Model.FailLoop Proofs.FailLoopThm.
+From LokyV Require Lib.DetectLib Model.Detect Proofs.DetectThm.
+From LokyV Require Gen.Detect.
+Module DetectG := LokyV.Gen.Detect.
 Import ListNotations.
 
 (* at every point of every interleaving of submit / shutdown / deaths / idle exits / completions with the manager walking its lists
@@ -112,6 +115,44 @@ Example C02_h14_bare_call :
   let s := FailLoop.run NoGuard [FailLoop.Cancel 1; FailLoop.Mgr; FailLoop.Mgr] (FailLoop.start [FailLoop.Waiting; FailLoop.Waiting; FailLoop.Waiting]) in
   FailLoop.lphase s = FailLoop.Crashed /\ FailLoop.todo s = [FailLoop.Cancelled; FailLoop.Waiting].
 Proof. vm_compute. split; reflexivity. Qed.
+
+(* ---- the decision of the manager's wait (Gen/Detect.v: wait_result_broken_or_wakeup translated statement by statement) ----
+   for every behaviour of the environment of one round (which pipes wait() reports ready, what recv() yields): the manager waits,
+   without time-out, on the result pipe, the wake-up pipe and the sentinel of EVERY registered worker; it reads at most one message
+   and only when the result pipe was reported ready; it says "broken" exactly when that message is a worker's traceback or cannot be
+   decoded, or when neither pipe was reported ready (only a sentinel can then have ended the wait); the error it builds is of the
+   matching kind and exists exactly when it says broken; it drains the wake-up pipe; it returns and never raises *)
+Theorem C02_round_decision :
+  forall e, let o := Detect.outcome e in
+    DetectLib.d_returned o = true /\ DetectLib.d_raised o = false /\ DetectLib.d_waited o = true /\ DetectLib.d_cleared o = true /\
+    DetectLib.d_broken o = Some (DetectThm.want_broken e) /\
+    (exists k, DetectLib.d_bpe o = Some k /\ DetectThm.bpe_eqb k (DetectThm.want_bpe e) = true) /\
+    DetectLib.d_recvs o = (if DetectLib.res_ready e then 1 else 0) /\
+    (DetectLib.d_item o = DetectLib.IItem <-> DetectLib.res_ready e = true /\ DetectLib.rc e = DetectLib.RItem).
+Proof. exact DetectThm.round_decision. Qed.
+Print Assumptions C02_round_decision.
+
+(* ---- a death is out-prioritised only by messages (Model/Detect.v) ----
+   the sentinel of a dead process stays ready, so the manager is never blocked while a registered worker is dead; a round that does not
+   flag the pool consumed a result message or the pending wake-ups: for every history of rounds (the OS choosing what wait() reports),
+   arriving messages, wake-ups and deaths, the number of rounds made with a dead registered worker that did not flag the pool is at
+   most the messages and wake-ups that were waiting plus those that arrived; with both pipes empty the next round flags it *)
+Theorem C02_death_is_outprioritised_only_by_messages :
+  (forall es s, Detect.quiet_rounds (Detect.drun_all es s) + Detect.backlog (Detect.drun_all es s)
+                <= Detect.quiet_rounds s + Detect.backlog s + Detect.arrivals es) /\
+  (forall s, Detect.dead s = true -> Detect.flagged s = false -> Detect.round_possible s false false = true) /\
+  (forall s rr wr r, Detect.dead s = true -> Detect.msgs s = 0 -> Detect.wakes s = 0 -> Detect.round_possible s rr wr = true ->
+                     Detect.flagged (Detect.dstep s (Detect.Round rr wr r)) = true).
+Proof.
+  split; [exact DetectThm.quiet_rounds_are_paid_by_messages|]. split; [exact DetectThm.dead_worker_ends_the_wait | exact DetectThm.empty_pipes_then_flagged].
+Qed.
+Print Assumptions C02_death_is_outprioritised_only_by_messages.
+
+Theorem C02_wakeup_pipe_structure :
+  DetectG.wakeup_writes_one_message_unless_closed = true /\ DetectG.clear_drains_every_message_unless_closed = true
+  /\ DetectG.close_closes_both_ends_once = true.
+Proof. repeat split; reflexivity. Qed.
+Print Assumptions C02_wakeup_pipe_structure.
 
 From Coq Require Import String ZArith.
 
